@@ -127,6 +127,8 @@ Definition sop_of_sx (s : sx) : option sop :=
   | L [I 14; ids] => option_map ODeleteTasks (sx_ints ids)
   | L [I 15; ids] => option_map ODeleteInss (sx_ints ids)
   | L [I 16; I d] => Some (OAge d)
+  | L [I 17] => Some OExpiredRound
+  | L [I 18; I to] => Some (OLeftBehindRound to)
   | _ => None
   end.
 
